@@ -42,3 +42,26 @@ func c20HashJobs(cr *CheckRun) []Job {
 	cr.bounds["reinit_file"] = fmt.Sprintf("participants 1..%d, messages 1..%d; every byte/string field an unbounded symbolic sequence; threshold and offsets symbolic ints", maxp, maxm)
 	return jobs
 }
+
+func init() {
+	checkDefs["C20"] = &checkDef{level: "other", pkgs: []string{typesPkg, nodePkg}, run: func(cr *CheckRun) {
+		jobs := c20HashJobs(cr)
+		opts := defaultOpts()
+		maxm := 3
+		if cr.Tier == "thorough" {
+			maxm = 4
+		}
+		for nm := 1; nm <= maxm; nm++ {
+			jobs = append(jobs, Job{Pkg: nodePkg, Fn: "VF_C20_Adapt", Opts: opts, Tag: fmt.Sprintf("adapt nm=%d", nm), Case: "adapt",
+				Params: map[string]string{"nm": strconv.Itoa(nm), "tag": "c20"}})
+		}
+		res := cr.Pool.Run(jobs)
+		cr.absorb(jobs, res)
+		cr.samples = append(cr.samples, map[string]interface{}{"hash_fields_checked": c20Fields(2, 2)})
+		cr.explanation = "Hash: CalcStartReInitDKGMessageHash executed from SSA on two reinit files that differ in exactly one field (every field in turn), byte strings as unbounded SMT sequences, SHA-1 uninterpreted and assumed collision-free; determinism by re-hashing. Adaptation: GetAdaptedReDKG/createMessage on symbolic 0.1.4-style logs against a reference walk. The node/airgapped replay part of C20 (same share after reinit) rests on kyber determinism and is outside the claim."
+		cr.bounds["adapt_log"] = fmt.Sprintf("1..%d messages, three participants (any sender, any other recipient), each message a deal or a commit confirmation with symbolic fields", maxm)
+		cr.bounds["outside"] = "multi-field edits (concatenation without separators collides by construction; the statement quantifies over single-field edits); reinitDKG/handleReinitDKG replay (kyber determinism)"
+		cr.assume = append(cr.assume, "SHA-1 collision-free (stated assumption)", "decimal formatting injective", "uuid fresh")
+		cr.trusted = append(cr.trusted, "gosx SSA->SMT executor", "z3 4.8.12 sequence theory")
+	}}
+}
